@@ -242,12 +242,13 @@ theorem listed_file_count (env : Env) (force : Bool) (w : Str) (ps : List Str) (
   · simp at hm
 
 /-- An `OutputSymlink` with path string `s` is listed iff `s` is a declared path whose normalised
-location is a symlink; the reported target is the link's (normalised) target. -/
+location is a symlink (that could be read); the reported target is the link's (normalised) target. -/
 theorem listed_symlink_iff (env : Env) (force : Bool) (w : Str) (ps : List Str) (up : Bool) (hy : Hierarchy)
     (r : Bool) (es : Entries) (hh : newHierarchy w ps up = .ok hy) (s t' : Str) :
     ∃ wd, resolveRel [] w = .ok wd ∧
       ((s, t') ∈ (hy.uploadOutputs env force (.dir r es)).symlinks ↔
-        s ∈ ps ∧ ∃ t, locate wd (.dir r es) s = some (.symlink t) ∧ t' = normTarget t) := by
+        s ∈ ps ∧ ∃ t, locate wd (.dir r es) s = some (.symlink t) ∧ t' = normTarget t ∧
+          env.readlinkFails t = false) := by
   obtain ⟨wd, hw, -, -, hs, -⟩ := exact_listing env force w ps up hy r es hh
   refine ⟨wd, hw, ?_⟩
   rw [hs.mem_iff, List.mem_flatMap]
@@ -256,12 +257,15 @@ theorem listed_symlink_iff (env : Env) (force : Bool) (w : Str) (ps : List Str) 
     rw [atLoc_symlinks] at hm
     split at hm
     · rename_i t hloc
-      simp only [List.mem_singleton, Prod.mk.injEq] at hm
-      obtain ⟨rfl, rfl⟩ := hm
-      exact ⟨hs', t, hloc, rfl⟩
+      split at hm
+      · simp at hm
+      · rename_i hrl
+        simp only [List.mem_singleton, Prod.mk.injEq] at hm
+        obtain ⟨rfl, rfl⟩ := hm
+        exact ⟨hs', t, hloc, rfl, by simpa using hrl⟩
     · simp at hm
-  · rintro ⟨hs, t, hloc, rfl⟩
-    exact ⟨s, hs, by rw [atLoc_symlinks, hloc]; simp⟩
+  · rintro ⟨hs, t, hloc, rfl, hrl⟩
+    exact ⟨s, hs, by rw [atLoc_symlinks, hloc]; simp [hrl]⟩
 
 /-- An `OutputDirectory` with path string `s` is listed iff `s` is a declared path whose normalised
 location is a directory `d`, and the entry is the one `uploadOutputDirectoryEntered` produces for
@@ -390,12 +394,14 @@ theorem tree_wellformed (env : Env) (up : Bool) (d : Node) (ps : List Str)
 /-- **The root (and, recursively, every child) describes the directory exactly**: its `files`,
 `directories` and `symlinks` are the directory's regular files (content id, executable bit),
 subdirectories (referenced by the digest of *their* message) and symlinks (normalised target), in
-`ReadDir` order; special files are left out (REv2 cannot express them).  With a fault-free CAS
-(`fileOf noFaults`) no file is missing. -/
+`ReadDir` order; special files are left out (REv2 cannot express them).  Fault free
+(`fileOf noFaults`, `symlinkOf noFaults`, all directories listable) nothing is missing; under faults
+only entries whose upload / `Readlink` / listing failed are - and then an error is saved
+(`errors_do_not_lie`, which covers entries at any depth below a declared output directory). -/
 theorem tree_root_exact (env : Env) (es : Entries) (m : DirMsg)
     (h : encodeDir env (.dir true es) = some m) :
     m.files = es.filterMap (fileOf env) ∧ m.dirs = es.filterMap (dirOf env) ∧
-      m.symlinks = es.filterMap symlinkOf := by
+      m.symlinks = es.filterMap (symlinkOf env) := by
   rw [encodeDir] at h
   simp only [↓reduceIte, Option.some.injEq] at h
   subst h
@@ -489,7 +495,8 @@ theorem faulty_entries_sound (env : Env) (force : Bool) (w : Str) (ps : List Str
     obtain ⟨wd0, hw0, h0⟩ := listed_symlink_iff noFaults force w ps up hy r es hh s t
     have : wd0 = wd := by rw [hw] at hw0; exact (Except.ok.inj hw0).symm
     subst this
-    exact h0.2 (h1.1 he)
+    obtain ⟨h2, t', h3, h4, -⟩ := h1.1 he
+    exact h0.2 ⟨h2, t', h3, h4, rfl⟩
 
 /-- The fault-free run saves an error only for a reason visible in the tree: a special file at a
 declared location, a non-directory where a parent directory has to be, or (not a fault of the CAS)
@@ -543,7 +550,7 @@ def exRoot : Node :=
      ([115], .special)])]
 
 /-- CAS that rejects content id 19. -/
-def exEnv : Env := ⟨fun b => match b with | .file c => c == 19 | _ => false⟩
+def exEnv : Env := { putFails := fun b => match b with | .file c => c == 19 | _ => false }
 
 example : (newHierarchy exWd exPaths true).toOption.isSome = true := by rfl
 
